@@ -80,12 +80,17 @@ def gen_case(rng, frontend=None):
         u = rng.choice([x for x, _ in units][:-1] + [units[0][0]])
         pos = rng.randrange(1, len(steps))
         steps.insert(pos, {'uid': None, 'del': u, 'req': None, 'frame': {'del': u}})
+    # a gateway that learns its units at run time: the server is built (real constructor) around an empty context
+    late = (not single) and all(0 <= u <= 247 for u, _ in units) and rng.random() < 0.25
     return dict(frontend=fe, framer=framer, single=single, units=units, ignore_missing=ignore, broadcast=bcast,
-                chunks=[s['frame'] for s in steps], steps=steps)
+                chunks=[s['frame'] for s in steps], steps=steps, late=late)
 
 
 def run_real_stepwise(c):
-    s = frontends.Session(c['frontend'], c['framer'], c['single'], c['units'], c['ignore_missing'], c['broadcast'])
+    # late: the server is built by its real constructor around a context without units; the units are attached afterwards
+    s = frontends.Session(c['frontend'], c['framer'], c['single'], c['units'], c['ignore_missing'], c['broadcast'], late=bool(c.get('late')))
+    if s.late_note:
+        run_real_stepwise.notes.add('%s: real constructor unavailable (%s)' % (c['frontend'], s.late_note))
     try:
         conn = s.open()
         before = s.dumps()
@@ -101,6 +106,9 @@ def run_real_stepwise(c):
         s.close()
 
 
+run_real_stepwise.notes = set()
+
+
 def check(ctx, rep, cases):
     ans = ctx.driver.query([serverlib.model_query(**c) for c in cases])
     proj_q, proj_meta = [], []
@@ -111,6 +119,9 @@ def check(ctx, rep, cases):
         outs, escs, dumps, alive, control = real
         case = {k: c[k] for k in ('frontend', 'framer', 'single', 'units', 'ignore_missing', 'broadcast', 'chunks', 'steps')}
         case['kind'] = 'server'
+        case['late'] = bool(c.get('late'))
+        if case['late']:
+            rep.hist['late-attach:%s' % c['frontend']] += 1
         changed = any(d != before for d in per_step)
         rep.case((c['frontend'], c['framer'], str(c['chunks']), str(c['units']), c['ignore_missing'], c['broadcast'], c['single']),
                  nontrivial=changed, tag='%s:%s' % (c['frontend'], c['framer']))
@@ -219,6 +230,7 @@ def run(ctx):
         cases = [c for c in cases if c['chunks']]
         check(ctx, rep, cases)
         done += len(cases)
+    rep.notes.extend(sorted(run_real_stepwise.notes))
     return rep
 
 
